@@ -13,10 +13,15 @@ PID = "C11"
 TECHNIQUE = "Lean 4 theorems on an exact-rational model of format_float/format_fraction + exact string correspondence"
 LEVEL_TEXT = ("Theorems in Lean about an executable exact-rational model of number formatting (rounding error bound, value of the shown "
               "text, exactness for ints and allowed fractions), proved for every non-negative rational; the model is tied to "
-              "number_formatting.py/render_number by exact string equality on boundary-focused generated numbers and the bit-exact float layer.")
+              "number_formatting.py/render_number by exact string equality on boundary-focused generated numbers and the bit-exact float layer. Reads back (C11c): both readers of the tool are modelled - number_parser.number (numberReader, on texts over digits . / blank tab) "
+              "and the grammar's number rule - and reader_reads_format / grammar_reads_format prove that every shown text is read back, by either, as the "
+              "shown value with the kind its spelling has (int, Fraction, nearest double of the shown decimal), never raising; reader_value_err: within half a "
+              "unit of the last shown digit, plus at most 10^3/2^53 units when a point is shown because the reader returns a double (reader_excess_witness: "
+              "10.25 -> '10.2' -> 10.199999999999999 is the tie where that excess is real); redisplay_stable / reread_stable; readers_agree / "
+              "readers_differ_exactly: where the two readers agree and the three spellings on which they differ; zeroDivision_only_outside_grammar.")
 LEVEL_NOTE = ("Trusted: Lean kernel; CPython '%.Nf'/round/modf being correctly rounded (re-validated per case); the hand-written model as far "
               "as correspondence exercises it. Fraction fallback through float is a recorded known finding (double rounding).")
-LEAN_MODULES = ["RecipeGrid.Props.C11"]
+LEAN_MODULES = ["RecipeGrid.Props.C11", "RecipeGrid.Props.C11c"]
 SOURCES = ["recipe_grid/number_formatting.py", "recipe_grid/number_parser.py", "recipe_grid/renderer/html.py"]
 RULE = ("numbers from seeded families: doubles within +-2 ulp of every rounding boundary of the 3-digit budget, exact ties, "
         "uniform doubles over 1e-4..1e15, dyadic rationals, integers up to 1e18, Fractions with allowed and other "
@@ -106,6 +111,31 @@ def correspondence(run):
         run.groups["python arithmetic"] += 1
         if impl != m:
             run.disagree("arith", (op, repr(a), repr(b)), impl, m)
+    reader_correspondence(run)
+
+
+def reader_correspondence(run):
+    """C11c: number_parser.number (the reader behind `--scale` and "reads back with the tool's own number syntax") and the grammar's number rule
+    against the Lean models numberReader / Parser.number (harness/reader_corr.py, its own process): every shown text of C11's generators, exhaustive
+    short soups over digits . / blank tab, fraction spellings, and a boundary stream outside the modelled language"""
+    import os
+    import subprocess
+    import sys
+    here = os.path.dirname(os.path.dirname(os.path.abspath(__file__)))
+    n = "3" if run.tier == "quick" and not getattr(run, "escalated", False) else "5"
+    p = subprocess.run([sys.executable, os.path.join(here, "reader_corr.py"), "--seed", str(20260930 + run.seed), "--soup-len", n], stdout=subprocess.PIPE,
+                       stderr=subprocess.STDOUT, text=True, timeout=3000, env=dict(os.environ, PYTHONPATH=os.pathsep.join(x for x in sys.path if x)))
+    m = re.search(r"distinct texts: (\d+), total: (\d+)\s+disagreements: (\d+)", p.stdout)
+    if not m:
+        run.disagree("read-number", "harness/reader_corr.py", p.stdout[-800:], "n/a")
+        return
+    run.groups["number_parser.number / grammar number rule vs numberReader / Parser.number"] += int(m.group(1))
+    run.evaluations += int(m.group(1))
+    if int(m.group(3)):
+        for line in [l for l in p.stdout.splitlines() if "DISAGREE" in l.upper()][:10]:
+            run.disagree("read-number", "seed %d" % (20260930 + run.seed), line.strip()[:800], "model")
+        if not any("DISAGREE" in l.upper() for l in p.stdout.splitlines()):
+            run.disagree("read-number", "seed %d" % (20260930 + run.seed), p.stdout[-800:], "model")
 
 
 def check_one(x):
